@@ -312,12 +312,12 @@ impl Property for C07 {
             Tier::Quick => vec![
                 Plan {
                     name: "trees",
-                    kind: PlanKind::Random { cases: 16000, max_len: 600 },
+                    kind: PlanKind::Random { cases: 80_000, max_len: 600 },
                     knobs: Knobs { max_nodes: 40, ..Default::default() },
                 },
                 Plan {
                     name: "after-history",
-                    kind: PlanKind::Random { cases: 12000, max_len: 400 },
+                    kind: PlanKind::Random { cases: 60_000, max_len: 400 },
                     knobs: Knobs { max_nodes: 20, max_ops: 25, variant: 1, ..Default::default() },
                 },
                 small,
@@ -325,17 +325,17 @@ impl Property for C07 {
             Tier::Thorough => vec![
                 Plan {
                     name: "trees",
-                    kind: PlanKind::Random { cases: 50_000, max_len: 600 },
+                    kind: PlanKind::Random { cases: 1_000_000, max_len: 600 },
                     knobs: Knobs { max_nodes: 40, ..Default::default() },
                 },
                 Plan {
                     name: "trees-big",
-                    kind: PlanKind::Random { cases: 8_000, max_len: 2400 },
+                    kind: PlanKind::Random { cases: 60_000, max_len: 2400 },
                     knobs: Knobs { max_nodes: 150, ..Default::default() },
                 },
                 Plan {
                     name: "after-history",
-                    kind: PlanKind::Random { cases: 40_000, max_len: 600 },
+                    kind: PlanKind::Random { cases: 600_000, max_len: 600 },
                     knobs: Knobs { max_nodes: 20, max_ops: 40, variant: 1, ..Default::default() },
                 },
                 small,
